@@ -42,7 +42,8 @@ META = {
     "design_ref": "5.4 C42",
 }
 
-INVARIANTS = ["TypeOK", "Mirror", "AddedOnce", "RemovedOnce", "LocationReached", "RebuiltWhenChanged", "RingFresh"]
+INVARIANTS = ["TypeOK", "Mirror", "AddedOnce", "RemovedOnce", "LocationReached", "RebuiltWhenChanged", "RingFresh",
+              "TokensDisjoint"]
 WITNESSES = ["Witness_TokenOnlyChange", "Witness_Duplicate", "Witness_InvalidIgnored", "Witness_Moved",
              "Witness_AddAndRemove", "Witness_NoRebuild"]
 ALL_SHAPES = ["absent", "valid", "noaddr", "nohid", "nodc", "norack", "notok", "dup", "inv_valid", "valid_inv"]
@@ -50,7 +51,7 @@ MAX_REPORT_PER_SIGNATURE = 2
 
 
 def _configs(quick):
-    base = {"Locs": {"a", "b"}, "TokVs": {1, 2}, "Forces": {False}, "SameAddr": set()}
+    base = {"Locs": {"a", "b"}, "TokVs": {1, 2}, "LocalTokVs": {1, 2}, "Forces": {False}, "SameAddr": set()}
     if quick:
         return [
             ("2 peers, 4 row shapes", dict(base, Peers={1, 2}, Shapes={"absent", "valid", "notok", "dup"},
@@ -65,6 +66,9 @@ def _configs(quick):
                                                                    Forces={False, True}), "both"),
         ("3 peers, present/absent, one location", dict(base, Peers={1, 2, 3}, Shapes={"absent", "valid"}, Locs={"a"},
                                                        LocalLocs={"a"}, CtlDups={False}), "both"),
+        ("2 peers, token ownership moves between hosts (replacement node takes over the tokens; a token changes owner)",
+         dict(base, Peers={1, 2}, Shapes={"absent", "valid"}, Locs={"a"}, LocalLocs={"a"}, CtlDups={False},
+              TokVs={1, 2, 4, 5}, LocalTokVs={1, 3}), "v1"),
         ("2 peers, one behind the control node's address (peers_v2 native_port)",
          dict(base, Peers={1, 2}, Shapes={"absent", "valid", "dup"}, LocalLocs={"a"}, CtlDups={False, True}, SameAddr={2}), "v2"),
     ]
@@ -103,24 +107,57 @@ def _is_nontrivial(st):
 
 
 def _gen_scripts(rng, n_scripts, n_peers, steps=3):
-    locs, toks = ["a", "b", "c"], [1, 2, 3]
+    from harness.replay.control import token_numbers
+    locs, toks, ltoks = ["a", "b", "c"], [1, 2, 3, 4, 5], [1, 2, 3]
+    valid = ("valid", "dup", "inv_valid", "valid_inv")
+
+    def repair(s):
+        """No token may have two owners in one snapshot: a peer claiming its predecessor's token gives it up when the
+        predecessor is described with it."""
+        owned = set(token_numbers(0, s["local"]["tok"]))
+        for p in range(1, n_peers + 1):
+            if s["shape"][p - 1] not in valid:
+                continue
+            i = s["info"][p - 1]
+            if owned & set(token_numbers(p, i["tok"])):
+                i["tok"] = 1 if not (owned & set(token_numbers(p, 1))) else 3
+            owned |= set(token_numbers(p, i["tok"]))
+        return s
     weights = [("valid", 50), ("absent", 14), ("noaddr", 3), ("nohid", 3), ("nodc", 3), ("norack", 5), ("notok", 3),
                ("dup", 7), ("inv_valid", 7), ("valid_inv", 7)]
     bag = [s for s, w in weights for _ in range(w)]
 
     def rand_snap():
-        return {"local": {"loc": rng.choice(locs), "tok": rng.choice(toks)},
-                "info": [{"loc": rng.choice(locs), "tok": rng.choice(toks)} for _ in range(n_peers)],
-                "shape": [rng.choice(bag) for _ in range(n_peers)], "ctlDup": rng.random() < 0.15}
+        return repair({"local": {"loc": rng.choice(locs), "tok": rng.choice(ltoks)},
+                       "info": [{"loc": rng.choice(locs), "tok": rng.choice(toks)} for _ in range(n_peers)],
+                       "shape": [rng.choice(bag) for _ in range(n_peers)], "ctlDup": rng.random() < 0.15})
+
+    def handover(s):
+        """Ownership changes, the set of tokens does not: peer p (owning 16p) is replaced by / hands that token to p+1."""
+        cand = [p for p in range(1, n_peers) if s["shape"][p - 1] in valid and s["info"][p - 1]["tok"] in (1, 2)]
+        if not cand:
+            return False
+        p = rng.choice(cand)
+        a, b = s["info"][p - 1], s["info"][p]
+        if a["tok"] == 1 and s["shape"][p] not in valid:            # p dies, the new node p+1 takes over exactly its token
+            s["shape"][p - 1], s["shape"][p] = "absent", "valid"
+            b["tok"], b["loc"] = 4, a["loc"]
+            return True
+        if a["tok"] == 2 and s["shape"][p] in valid and b["tok"] == 1:   # token 16p moves from p to p+1
+            a["tok"], b["tok"] = 3, 5
+            return True
+        return False
 
     def mutate(s):
         s = json.loads(json.dumps(s))
+        if rng.random() < 0.30 and handover(s):
+            return repair(s)
         for _ in range(rng.choice((1, 1, 2))):
             k = rng.random()
             p = rng.randrange(n_peers)
             if k < 0.40:
                 tgt = s["local"] if rng.random() < 0.25 else s["info"][p]
-                tgt["tok"] = rng.choice([t for t in toks if t != tgt["tok"]])
+                tgt["tok"] = rng.choice([t for t in (ltoks if tgt is s["local"] else toks) if t != tgt["tok"]])
             elif k < 0.60:
                 tgt = s["local"] if rng.random() < 0.25 else s["info"][p]
                 tgt["loc"] = rng.choice([x for x in locs if x != tgt["loc"]])
@@ -128,7 +165,7 @@ def _gen_scripts(rng, n_scripts, n_peers, steps=3):
                 s["shape"][p] = rng.choice(bag)
             else:
                 s["ctlDup"] = not s["ctlDup"]
-        return s
+        return repair(s)
     scripts = []
     for _ in range(n_scripts):
         sc = [rand_snap()]
@@ -148,11 +185,11 @@ def run(ctx):
 
     if not ctx.quick:
         # vacuity: every witness reachable (separate small run; in the quick tier the first configuration records them)
-        wconst = {"Locs": {"a", "b"}, "TokVs": {1, 2}, "Forces": {False}, "Peers": {1, 2},
+        wconst = {"Locs": {"a", "b"}, "TokVs": {1, 2, 4}, "LocalTokVs": {1, 3}, "Forces": {False}, "Peers": {1, 2},
                   "Shapes": {"absent", "valid", "norack", "dup"}, "LocalLocs": {"a"}, "CtlDups": {False}, "SameAddr": {2}}
-        rc.witnesses_reached("ControlRefresh", ctx.scratch, WITNESSES + ["Witness_SharedAddressRemoved"], init="InitBoth",
+        rc.witnesses_reached("ControlRefresh", ctx.scratch, WITNESSES + ["Witness_SharedAddressRemoved", "Witness_OwnerOnlyChange"], init="InitBoth",
                              next="NextOnce", constants=wconst)
-        ctx.note("vacuity_witnesses_reached", len(WITNESSES) + 1)
+        ctx.note("vacuity_witnesses_reached", len(WITNESSES) + 2)
 
     # ---- exhaustive configurations: TLC (base case + inductive step), then every pair replayed
     total_edges = covered_edges = 0
@@ -203,7 +240,8 @@ def run(ctx):
     n_scripts = 300 if ctx.quick else 4500
     label[0] = "scripted sequences over %d peers" % n_peers
     scripts = _gen_scripts(ctx.rng, n_scripts, n_peers)
-    sconsts = {"Peers": set(range(1, n_peers + 1)), "Locs": {"a", "b", "c"}, "TokVs": {1, 2, 3}, "Shapes": set(ALL_SHAPES),
+    sconsts = {"Peers": set(range(1, n_peers + 1)), "Locs": {"a", "b", "c"}, "TokVs": {1, 2, 3, 4, 5}, "LocalTokVs": {1, 2, 3},
+               "Shapes": set(ALL_SHAPES),
                "LocalLocs": {"a", "b", "c"}, "CtlDups": {False, True}, "Forces": {False}, "SameAddr": {n_peers}}
     t0 = time.time()
     cfg = tlc.write_cfg(os.path.join(ctx.scratch, "script.cfg"), init="ScriptInit", next="ScriptNext", constants=sconsts,
@@ -237,6 +275,18 @@ def run(ctx):
     ctx.note("scripted_removals_of_a_host_sharing_the_control_address", shared_removed)
     if not shared_removed:
         raise tlc.MachineryError("no scripted sequence removes the host that shares the control node's address")
+    # vacuity (Witness_OwnerOnlyChange on the scripted runs): same set of tokens before and after, another owner
+    def _owner_only(st):
+        before = {}
+        for h, i in st["prev"].items():
+            for t in rc.token_numbers(h, i["tok"]):
+                before[t] = h
+        after = dict(st["ring"])
+        return bool(before) and set(before) == set(after) and before != after
+    owner_only = sum(1 for st in sts if _owner_only(st))
+    ctx.note("scripted_refreshes_changing_only_token_owners", owner_only)
+    if not owner_only:
+        raise tlc.MachineryError("no scripted refresh changes the owner of a token while keeping the set of tokens")
     t0 = time.time()
     ok_scripts = 0
     for sid in sorted(by_sid):
